@@ -765,24 +765,28 @@ Qed.
    to the full request *)
 Definition twin (w : Z) : qattr :=
   mkQ w [Some 1000; Some 1000] [Some 10; Some 0] vzero vzero vzero false.
-Definition twin_qs : list qattr := [twin 100; twin 199].
-Definition twin_rem : vec := [Some (2985 # 200); Some 0].
+(* a third queue whose cpu share is wasted (capped at 0), so that something remains *)
+Definition waster : qattr :=
+  mkQ 2 [Some 0; Some 1000] [Some 10; Some 0] vzero vzero vzero false.
+Definition twin_rem : vec := [Some (199 # 8); Some 0].
 
 Lemma weight_monotone_strict_refuted :
-  exists D rem q1 q2,
+  exists D rem q1 q2 q3,
     q_rcap q1 = q_rcap q2 /\ q_req q1 = q_req q2 /\ q_gua q1 = q_gua q2 /\ (0 < q_w q1 <= q_w q2)%Z /\
-    match out_qs (loop 10 D rem [q1; q2] 0) with
-    | [r1; r2] => val0 (cnth (q_des r2) 0) < val0 (cnth (q_des r1) 0)
+    match out_qs (loop 10 D rem [q1; q2; q3] 0) with
+    | [r1; r2; _] => val0 (cnth (q_des r2) 0) < val0 (cnth (q_des r1) 0)
     | _ => False
     end.
 Proof.
-  exists 2%nat, twin_rem, (twin 100), (twin 199). repeat split; try reflexivity; try lia.
+  exists 2%nat, twin_rem, (twin 1), (twin 2), waster.
+  split; [reflexivity|]. split; [reflexivity|]. split; [reflexivity|]. split; [simpl; lia|].
+  vm_compute. reflexivity.
 Qed.
 
 (* ---------- non-vacuity ---------- *)
 Lemma wit_wf : Forall upper_ok wit_qs.
 Proof.
-  repeat constructor; apply upper_ok_init; try reflexivity;
-    intro i; destruct i as [|[|[|[|i]]]]; unfold cnth; simpl;
+  apply Forall_cons; [|apply Forall_cons; [|apply Forall_nil]]; apply upper_ok_init; try reflexivity;
+    intro i; destruct i as [|[|[|[|i]]]]; unfold cnth; simpl; try (destruct i; simpl);
     (split; [intros c E; inversion E; subst; lra | split; lra]).
 Qed.
